@@ -14,7 +14,9 @@ rng = ck.rng
 pr = ck.prove()
 
 TY = {"u8": (8, False), "i8": (8, True), "u16": (16, False), "i16": (16, True),
-      "u32": (32, False), "i32": (32, True), "u64": (64, False), "i64": (64, True)}
+      "u32": (32, False), "i32": (32, True), "u64": (64, False), "i64": (64, True),
+      "ull": (64, False), "ll": (64, True)}          # unsigned long long / long long: same model type as u64 / i64
+ALL_TYPES = ["u8", "i8", "u16", "i16", "u32", "i32", "u64", "i64", "ull", "ll"]
 INT_MIN, INT_MAX = -(1 << 31), (1 << 31) - 1
 
 def trange(t):
@@ -23,6 +25,16 @@ def trange(t):
 
 def promoted(t):
     return "i32" if TY[t][0] < 32 else t
+
+def common_type(t1, t2):
+    """usual arithmetic conversions (LP64), as (width, signed)"""
+    (w1, s1), (w2, s2) = TY[promoted(t1)], TY[promoted(t2)]
+    if w1 == w2: return (w1, s1 and s2)
+    return (w1, s1) if w1 > w2 else (w2, s2)
+
+def fits_ws(ws, v):
+    w, s = ws
+    return (-(1 << (w - 1)) <= v <= (1 << (w - 1)) - 1) if s else (0 <= v <= (1 << w) - 1)
 
 def fits(t, v):
     lo, hi = trange(t)
@@ -81,6 +93,13 @@ def ref2(fn, t, a, b):
         r = abs(a - b)
         return r if fits(t, r) else None
     raise KeyError(fn)
+
+def ref2m(fn, tn, tk, a, b):
+    if a < 0 or b < 1: return None
+    q = -((-a) // b)
+    if fn == "div_ceil": return q
+    r = q * b
+    return r if fits_ws(common_type(tn, tk), r) else None
 
 def nontrivial1(x):
     return x != 0 and (x & (x - 1)) != 0 and x != -1
@@ -155,7 +174,10 @@ def gen_integer_cases(scale):
             vals = [as_type(t, p) for p in pats]
             for f in FN1_TEMPLATES + FN1_OVERLOADS + FN1_FIXED.get(t, []):
                 for ch in chunks(vals, 64):
-                    cases.append("val %s %s %s" % (f, t, " ".join(map(str, ch))))
+                    tname = t
+                    if w == 64 and f not in FN1_FIXED.get(t, []) and rng.chance(1, 2):
+                        tname = "ull" if t == "u64" else "ll"       # the (unsigned) long long instantiation / overload
+                    cases.append("val %s %s %s" % (f, tname, " ".join(map(str, ch))))
     # pairs
     for t in ("u16", "i16", "u32", "i32", "u64", "i64"):
         w, s = TY[t]
@@ -177,11 +199,55 @@ def gen_integer_cases(scale):
             else: b = as_type(t, rng.next() & ((1 << rng.range(1, w)) - 1))
             if s and rng.chance(3, 4) and a < 0: a = -(a + 1)                 # mostly non-negative n
             pairs.add((a, b))
-        pairs |= {(hi, 2), (hi - 1, 3), (hi, hi), (hi, 1), (0, 1), (0, hi), (1, hi), (lo, hi), (hi, lo), (lo, lo), (lo, 1)}
-        pl = sorted(pairs)
+        pairs |= {(hi, 2), (hi - 1, 3), (hi, hi), (hi, 1), (0, 1), (0, hi), (1, hi), (lo, hi), (hi, lo), (lo, lo), (lo, 1),
+                  (-1, 1), (-1, hi), (lo + 1, 2), (lo, 2), (hi - 1, hi), (hi, hi - 1), (0, 2), (0, 3)}
+        for _ in range(60):                                                  # k = 1, k = max, n = 0 against arbitrary partners
+            x = as_type(t, rng.choice(pool))
+            pairs |= {(x, 1), (x, hi), (0, max(1, abs(x))), (hi, max(1, abs(x)))}
+        pl = sorted(p_ for p_ in pairs if lo <= p_[0] <= hi and lo <= p_[1] <= hi)
         for f in FN2_ARITH:
             for ch in chunks(pl, 48):
-                cases.append("val2 %s %s %s" % (f, t, " ".join("%d:%d" % p for p in ch)))
+                tname = t
+                if w == 64 and rng.chance(1, 2): tname = "ull" if t == "u64" else "ll"
+                cases.append("val2 %s %s %s" % (f, tname, " ".join("%d:%d" % p for p in ch)))
+    # div_ceil / round_up with operands of two different types (decltype(n + k))
+    for _ in range(220 * scale):
+        tn, tk = rng.choice(ALL_TYPES), rng.choice(ALL_TYPES)
+        if TY[tn] == TY[tk] and rng.chance(3, 4): continue
+        (wn, sn), (wk, sk) = TY[tn], TY[tk]
+        lon, hin = trange(tn); lok, hik = trange(tk)
+        pairs = set()
+        while len(pairs) < 24:
+            r = rng.below(8)
+            if r == 0: a = hin - rng.below(20)
+            elif r == 1: a = 0
+            elif r == 2 and sn: a = rng.choice([-1, lon, lon + 1, -rng.range(1, 1000)])
+            elif r == 3: a = rng.below(1000)
+            else: a = as_type(tn, rng.next() & ((1 << rng.range(1, wn)) - 1))
+            if sn and a < 0 and rng.chance(1, 2): a = -(a + 1)
+            if not (lon <= a <= hin): a = a % (hin + 1)
+            j = rng.below(7)
+            if j == 0: b = 1
+            elif j == 1: b = hik
+            elif j == 2: b = hik - rng.below(20)
+            elif j == 3: b = 1 + rng.below(16)
+            elif j == 4: b = 1 << rng.below(wk - 1)
+            else: b = max(1, as_type(tk, rng.next() & ((1 << rng.range(1, wk - (1 if sk else 0))) - 1)))
+            if b < 1: b = 1
+            if b > hik: b = 1 + b % hik
+            pairs.add((a, b))
+        for f in ("div_ceil", "round_up"):
+            cases.append("valm %s %s %s %s" % (f, tn, tk, " ".join("%d:%d" % p_ for p_ in sorted(pairs))))
+    # byte-range popcount: every start offset 0..9 behind an aligned address x every length 0..40
+    for start in range(10):
+        for ln in range(41):
+            mode = rng.below(4)
+            bs = [0xFF if mode == 0 else (0 if mode == 1 else (rng.next() & 0xFF)) for _ in range(ln)]
+            cases.append("prange %d %s" % (start, " ".join(map(str, bs))))
+    if scale > 1:
+        for _ in range(3000):
+            ln = rng.range(0, 200)
+            cases.append("prange %d %s" % (rng.below(16), " ".join(str(rng.next() & 0xFF) for _ in range(ln))))
     for t in ("u32", "u64"):
         w, s = TY[t]
         pool = sorted(structured(w) | randoms(w, 100))
@@ -217,9 +283,14 @@ def cluster_val(rng, cl):
         return "%d/1024" % (off * 1024 + rng.range(0, 1 if width == -1 else 10))
     return cluster_value(rng, off, kind, width)
 
-def gen_agg(rng):
+# value families per Aggregate element type: double takes everything; float only values with <= 24 significant bits;
+# int / size_t only integers (size_t non-negative); all values exactly representable in the type
+KIND_VM = {"agg": [0, 1, 2, 3, 4, 5, 6, 7], "aggf": [0, 1, 2, 3, 4], "aggi": [0, 3, 8, 9], "aggz": [10, 11, 12]}
+
+def gen_agg(rng, kind="agg"):
     nops = rng.range(2, 45)
-    vm = rng.below(8)
+    vm = rng.choice(KIND_VM[kind])
+    ioff = rng.choice([10 ** 6, 10 ** 9, -10 ** 8]); zoff = rng.choice([10 ** 6, 10 ** 12, 0])
     heavy = rng.below(3)
     const = rng.range(-50, 50)
     cl = pick_cluster(rng); cl2 = pick_cluster(rng)
@@ -234,6 +305,11 @@ def gen_agg(rng):
             elif vm == 2: v = "%d/8" % (8000 + rng.range(-9, 9))
             elif vm == 3: v = "%d" % const
             elif vm == 4: v = "%d/4" % rng.range(0, 400)
+            elif vm == 8: v = "%d" % rng.range(-1000, 1000)
+            elif vm == 9: v = "%d" % (ioff + rng.range(0, 10))
+            elif vm == 10: v = "%d" % rng.range(0, 400)
+            elif vm == 11: v = "%d" % (zoff + rng.range(0, 10))
+            elif vm == 12: v = "%d" % rng.choice([0, 1, 2 ** 31, 2 ** 40 + 3, 7])
             elif vm in (5, 6): v = cluster_val(rng, cl)                         # large common offset, small spread
             else: v = cluster_val(rng, cl if rng.chance(1, 2) else cl2) if rng.chance(2, 3) else "%d/8" % rng.range(-80, 80)   # mixed magnitudes
             ops.append("A,%d,%s" % (i, v)); size[i] += 1
@@ -246,7 +322,7 @@ def gen_agg(rng):
             if size[i] + size[j] > 300: continue
             ops.append("PA,%d,%d" % (i, j)); size[i] += size[j]
         else: ops.append("R,%d" % i); size[i] = 0
-    return "agg " + " ".join(ops)
+    return kind + " " + " ".join(ops)
 
 def gen_agg_offset(rng):
     """operands of 1..50 values around a large common offset, combined by +, += and chains of three"""
@@ -274,6 +350,11 @@ DBL_MAX = Fraction((2 ** 53 - 1) * 2 ** 971)
 U = Fraction(1, 2 ** 53)
 agg_margin = [Fraction(0)]     # largest observed |error| / tolerance over the run (evidence)
 
+FLT_MAX = Fraction((2 ** 24 - 1) * 2 ** 104)
+AGG_SENTINEL = {"agg": (DBL_MAX, -DBL_MAX), "aggf": (FLT_MAX, -FLT_MAX),
+                "aggi": (Fraction(2 ** 31 - 1), Fraction(-2 ** 31)), "aggz": (Fraction(2 ** 64 - 1), Fraction(0))}
+AGG_TYPE = {"agg": "Aggregate<double>", "aggf": "Aggregate<float>", "aggi": "Aggregate<int>", "aggz": "Aggregate<size_t>"}
+
 def agg_reference(case):
     """independent exact reference: the multiset each variable stands for, then the textbook definitions"""
     g = [[], [], []]
@@ -292,7 +373,8 @@ def agg_reference(case):
     for l in g:
         n = len(l)
         if n == 0:
-            res.append((0, Fraction(0), Fraction(0), Fraction(0), DBL_MAX, -DBL_MAX, Fraction(0), Fraction(0))); continue
+            hi_, lo_ = AGG_SENTINEL[case.split()[0]]
+            res.append((0, Fraction(0), Fraction(0), Fraction(0), hi_, lo_, Fraction(0), Fraction(0))); continue
         m = sum(l) / n
         ss = sum((x - m) ** 2 for x in l)
         res.append((n, m, ss / (n - 1) if n > 1 else Fraction(0), ss / n if n > 1 else Fraction(0), min(l), max(l),
@@ -322,8 +404,10 @@ def cmp_agg(case, impl_line, model_line):
         if mv != ref[i][:6] or mv2 != ref[i][:6]:
             model_bad = "variable %d: model %s / model-feed-all %s / reference %s" % (i, mg[i], mg2[i], [str(x) for x in ref[i][:6]])
     for i in range(3):
-        if len(ig) != 3 or len(ig[i]) != 6:
+        if len(ig) != 3 or len(ig[i]) != 8:
             return ("unparsable output: %r" % impl_line[:100], model_bad)
+        if ig[i][7] != "ACC-OK":
+            return ("variable %d: accessor inconsistent with count/mean/variance/min/max: %s" % (i, ig[i][7]), model_bad)
         n, m, v1, v0, mn, mx, M, R = ref[i]
         names = ("count", "mean", "variance(1)", "variance(0)", "min", "max")
         # Forward error of the numerically stable formulas (Welford update, Chan et al. pairwise combination) in
@@ -337,7 +421,7 @@ def cmp_agg(case, impl_line, model_line):
         for k in range(6):
             want = ref[i][k]
             try:
-                got = Fraction(ig[i][k]) if k == 0 else Fraction(float(ig[i][k]))
+                got = Fraction(ig[i][k]) if (k == 0 or (k >= 4 and case.split()[0] in ("aggi", "aggz"))) else Fraction(float(ig[i][k]))
             except (ValueError, OverflowError):
                 return ("variable %d %s: got %s, exact value %s" % (i, names[k], ig[i][k], float(want)), model_bad)
             err = abs(got - want)
@@ -345,7 +429,44 @@ def cmp_agg(case, impl_line, model_line):
                 return ("variable %d %s: got %s, exact value %.17g, |error| %.3g > tolerance %.3g (values fed: %d, magnitude %.3g, range %.3g)"
                         % (i, names[k], ig[i][k], float(want), float(err), float(tol[k]), n, float(M), float(R)), model_bad)
             if tol[k] > 0 and err / tol[k] > agg_margin[0]: agg_margin[0] = err / tol[k]
+        # sum() / total() = static_cast<Type>(count * mean): exact sum within the mean's error, the rounding of the
+        # conversion to Type (float: 2^-24 relative; integral: truncation, < 1), when the sum is representable in Type
+        S = m * n
+        kind = case.split()[0]
+        representable = {"agg": True, "aggf": abs(S) < FLT_MAX, "aggi": -2 ** 31 < S < 2 ** 31 - 1, "aggz": 0 <= S < 2 ** 63}[kind]
+        if representable:
+            ts = n * tm + {"agg": abs(S) * 4 * U, "aggf": abs(S) / 2 ** 23, "aggi": 1, "aggz": 1}[kind]
+            try:
+                gs = Fraction(ig[i][6]) if kind in ("aggi", "aggz") else Fraction(float(ig[i][6]))
+            except (ValueError, OverflowError):
+                return ("variable %d sum(): got %s, exact value %s" % (i, ig[i][6], float(S)), model_bad)
+            if abs(gs - S) > ts:
+                return ("variable %d sum(): got %s, exact value %.17g (tolerance %.3g)" % (i, ig[i][6], float(S), float(ts)), model_bad)
     return (None, model_bad)
+
+
+# ------------------------------------------------------------------ API surface anchored by the property, and what the harness calls
+INT6 = "int, unsigned, long, unsigned long, long long, unsigned long long"
+T10 = "uint8_t, int8_t, uint16_t, int16_t, uint32_t/unsigned, int32_t/int, unsigned long (uint64_t), long (int64_t), unsigned long long, long long"
+API_SURFACE = [
+    {"function": "clz_template<T>, ctz_template<T>, ffs_template<T>, integer_log2_floor_template<T>, is_power_of_two_template<T>, round_up_to_power_of_two_template<T>, round_down_to_power_of_two_template<T>", "instantiations": T10, "called": True, "note": "8/16 bit: every value; long long instantiations chosen per case from the seed (added in the overload audit)"},
+    {"function": "clz<T>", "overloads": INT6, "called": True, "note": "long and long long both called on every 64-bit case and required to agree"},
+    {"function": "ctz<T>", "overloads": INT6, "called": True},
+    {"function": "ffs", "overloads": INT6, "called": True},
+    {"function": "popcount", "overloads": INT6, "called": True},
+    {"function": "popcount_generic8/16/32/64", "overloads": "uint8_t/uint16_t/uint32_t/uint64_t", "called": True},
+    {"function": "popcount(const void* data, size_t size)", "overloads": "byte range", "called": True, "note": "added in the overload audit: start offsets 0..9 behind an 8-byte aligned address x lengths 0..40 (thorough: random lengths up to 200)"},
+    {"function": "integer_log2_floor, integer_log2_ceil", "overloads": INT6, "called": True},
+    {"function": "is_power_of_two, round_up_to_power_of_two, round_down_to_power_of_two", "overloads": INT6, "called": True},
+    {"function": "uint8_t / uint16_t arguments to the overloaded functions", "overloads": "promote to the int overload (no separate code)", "called": False, "note": "covered by the int overloads; the 8/16-bit template instantiations are called directly"},
+    {"function": "bswap16, bswap32, bswap64, bswap16_generic, bswap32_generic, bswap64_generic", "overloads": "uint16_t/uint32_t/uint64_t", "called": True},
+    {"function": "rol32, rol64, ror32, ror64, rol32_generic, rol64_generic, ror32_generic, ror64_generic", "overloads": "(uintN_t, int)", "called": True},
+    {"function": "div_ceil<N,K>, round_up<N,K>", "instantiations": "same type: " + T10 + "; mixed: every ordered pair of these 10 types (decltype(n + k), signed n with unsigned k included)", "called": True, "note": "long long and all mixed pairs added in the overload audit"},
+    {"function": "abs_diff<T>, sgn<T>", "instantiations": T10, "called": True, "note": "long long instantiations added in the overload audit; sgn of floating-point types is outside the property (integer helpers)"},
+    {"function": "Aggregate<Type>: default ctor, add, operator+, operator+=, copy/assignment, count, mean, variance(ddof=0,1), min, max, sum", "instantiations": "double, float, int, size_t", "called": True, "note": "compared with the exact model / reference; float, int, size_t added in the overload audit"},
+    {"function": "Aggregate<Type>: average, avg, total, var, standard_deviation, stdev (ddof 0, 1 and default), span, serialize(Archive&), Aggregate(count, mean, nvar, min, max)", "instantiations": "double, float, int, size_t", "called": True, "note": "checked inside the harness for consistency with mean/sum/variance/min/max (stdev = sqrt(variance), span = max - min for non-empty, serialize + initializing constructor round trip); added in the overload audit"},
+    {"function": "MSVC and generic #else branches of clz/ctz/ffs/popcount/integer_log2_floor/bswap/rol/ror", "overloads": "not compiled by g++/clang on x86-64", "called": False, "note": "the templates they forward to are called directly"},
+]
 
 # ------------------------------------------------------------------ cases
 corpus = [l.strip() for l in open(os.path.join(verif.VERIF, "corpus", "C20", "cases.txt")) if l.strip() and not l.startswith("#")]
@@ -358,6 +479,8 @@ else:
         cases.append(gen_agg(rng))
     for k in range(6000 if ck.thorough() else 700):
         cases.append(gen_agg_offset(rng))
+    for k in range(4000 if ck.thorough() else 450):
+        cases.append(gen_agg(rng, rng.choice(["aggf", "aggi", "aggz"])))      # Aggregate<float>, <int>, <size_t>
     if ck.thorough():
         pass  # the full 2^32 sweep is run separately below (4 processes, unsanitized -O2 build)
     cases.append("sweep32 %d %d %d" % (rng.below(1 << 32), 1031 * (2 * rng.below(1000) + 1), 1 << 21))
@@ -396,6 +519,8 @@ def single_value_cases(case):
     tok = case.split()
     if tok[0] in ("val", "val2"):
         return [" ".join(tok[:3] + [v]) for v in tok[3:]]
+    if tok[0] == "valm":
+        return [" ".join(tok[:4] + [v]) for v in tok[4:]]
     if tok[0] == "exh":
         return ["val %s %s %d" % (tok[1], tok[2], x) for x in range(int(tok[3]), int(tok[4]) + 1)]
     if tok[0] == "exh2":
@@ -403,7 +528,7 @@ def single_value_cases(case):
     return [case]
 
 found = False
-stats = {"exhaustive_8_16_bit": 0, "values_32_64_bit": 0, "pairs": 0, "aggregate_histories": 0, "sweep32_values": 0}
+stats = {"exhaustive_8_16_bit": 0, "values_32_64_bit": 0, "pairs": 0, "mixed_type_pairs": 0, "byte_ranges": 0, "aggregate_histories": 0, "sweep32_values": 0}
 nontriv = 0
 evaluations = 0
 samples = []
@@ -454,14 +579,52 @@ else:
             else:
                 nontriv += int(a.split("nontrivial=")[1])
             continue
-        if kind == "agg":
-            evaluations += 1; stats["aggregate_histories"] += 1
+        if kind == "prange":
+            evaluations += 1; stats["byte_ranges"] += 1
+            bs = [int(x) for x in tok[2:]]
+            want = sum(bin(x).count("1") for x in bs)
+            if any(x not in (0, 255) for x in bs): nontriv += 1
+            if a.strip() != str(want):
+                found = True
+                ck.violation("popcount(const void*, size_t) on %d bytes at offset %s behind an aligned address = %s, number of one bits is %d (model: %s)" % (len(bs), tok[1], a.strip(), want, b.strip()),
+                             {"case": c, "impl": a, "reference": str(want), "model": b, "replay_cmd": "bin/check C20 --replay <this file>"})
+            elif b.strip() != str(want) and model_issue is None:
+                model_issue = (c, "popcount_range model %s, reference %d" % (b.strip(), want))
+            if kind not in seen_kinds and len(bs) > 12: seen_kinds.add(kind); samples.append({"case": c, "impl": a})
+            continue
+        if kind == "valm":
+            fn, tn, tk = tok[1], tok[2], tok[3]
+            ins = [tuple(int(z) for z in v.split(":")) for v in tok[4:]]
+            ia = a.split(); mb = b.split()
+            evaluations += len(ins); stats["mixed_type_pairs"] += len(ins)
+            if len(ia) != len(ins) or len(mb) != len(ins):
+                ck.violation("output length mismatch on case " + c[:120], {"correspondence": "harness/driver output format", "case": c, "impl": a[:300], "model": b[:300]}, no_input=True)
+                continue
+            for k, (n_, k_) in enumerate(ins):
+                r = ref2m(fn, tn, tk, n_, k_)
+                if k_ > 0 and n_ % k_ != 0: nontriv += 1
+                x, y = ia[k], mb[k]
+                if r is not None and x != str(r):
+                    found = True
+                    one = "valm %s %s %s %d:%d" % (fn, tn, tk, n_, k_)
+                    ck.violation("%s<%s,%s>(%d, %d) = %s, mathematical definition gives %s (model: %s)" % (fn, tn, tk, n_, k_, x, r, y),
+                                 {"case": one, "impl": x, "reference": str(r), "model": y, "replay_cmd": "bin/check C20 --replay <this file>"})
+                    break
+                if r is not None and y != str(r) and model_issue is None:
+                    model_issue = (c, "%s<%s,%s>(%d,%d): model %s, reference %s" % (fn, tn, tk, n_, k_, y, r))
+                if x != y and model_issue is None:
+                    model_issue = (c, "%s<%s,%s>(%d,%d): impl %s, model %s (no claim by the property for this input)" % (fn, tn, tk, n_, k_, x, y))
+            if (kind, fn) not in seen_kinds: seen_kinds.add((kind, fn)); samples.append({"case": " ".join(tok[:9]) + " ...", "impl": " ".join(ia[:5]) + " ..."})
+            if ck.violations >= 6: break
+            continue
+        if kind in ("agg", "aggf", "aggi", "aggz"):
+            evaluations += 1; stats["aggregate_histories"] += 1; stats["aggregate_" + AGG_TYPE[kind]] = stats.get("aggregate_" + AGG_TYPE[kind], 0) + 1
             ibad, mbad = cmp_agg(c, a, b)
             if agg_reference(c)[1]: nontriv += 1
             if mbad and model_issue is None: model_issue = (c, mbad)
             if ibad:
                 found = True
-                ck.violation("Aggregate<double> differs from feeding all values into one Aggregate (exact reference): " + ibad,
+                ck.violation(AGG_TYPE[kind] + " differs from feeding all values into one Aggregate (exact reference): " + ibad,
                              {"case": c, "impl": a, "model": b[:400], "replay_cmd": "bin/check C20 --replay <this file>"})
                 if ck.violations >= 6: break
             if kind not in seen_kinds: seen_kinds.add(kind); samples.append({"case": c, "impl": a, "model": b.split(" || ")[0]})
@@ -528,6 +691,7 @@ ck.finish({
     "samples": samples[:8],
     "input_distribution": stats,
     "aggregate_max_error_over_tolerance": float(agg_margin[0]),
+    "api_surface": API_SURFACE,
 }, assumptions=[
     "C++ integer semantics as modelled in coq/C20/Math.v: two's complement wrap on narrowing/unsigned arithmetic, integer promotion to int, arithmetic >> on signed values (g++/clang behaviour)",
     "compiler intrinsics (__builtin_clz/ctz/ffs/popcount/bswap, x86 rol/ror) are modelled by their specification; their agreement with the templates on the real code is checked by the correspondence run only",
